@@ -78,7 +78,16 @@ def generate(args):
 def solve(args):
     text, nparts, timeout, expect_sat, both, rtext = args
     try:
-        return solve_text(text, nparts, timeout, expect_sat=expect_sat, both=both, reduced_text=rtext)
+        r = solve_text(text, nparts, timeout, expect_sat=expect_sat, both=both, reduced_text=rtext)
+        if r["status"] == "unknown" and not expect_sat and timeout <= 20:
+            # undecided within the budget: one retry with three times the budget, so that a verdict does not flip to
+            # "undecided" just because every core is busy (an obligation that is really unprovable pays this once)
+            r2 = solve_text(text, nparts, timeout * 3, expect_sat=expect_sat, both=both, reduced_text=rtext)
+            r2["seconds"] = r.get("seconds", 0) + r2.get("seconds", 0)
+            if r2["status"] != "unknown":
+                r2["backend"] = (r2.get("backend") or "z3") + " (retry, 3x budget)"
+            return r2
+        return r
     except Exception:
         return {"status": "unknown", "backend": "z3", "reason": "solver error: " + traceback.format_exc()[-600:],
                 "model": {}, "model_text": "", "failed_parts": [], "unknown_parts": [], "seconds": 0.0}
